@@ -71,10 +71,10 @@ Print Assumptions C20_reject_names_violation.
    holds = true means what the property says about this input. *)
 Theorem C20_holds_outcome_sound :
   forall i o s, holds_outcome i o s = true -> o <> Crash 97 ->
-  (Valid i -> exists ps n, o = Accept ps /\ nsamples i = Some n /\ 10 * n <= ps /\ v_popsize i <= ps /\
-                           s = Completed (2 * n)) /\
+  (Valid i -> exists ps n h, o = Accept ps /\ nsamples i = Some n /\ 10 * n <= ps /\
+                             s = Completed h /\ 0 < h) /\
   (~ Valid i -> side_ok_b i = true -> violated i <> [] ->
-   exists k, o = Reject k /\ In (clause_of k) (violated i)).
+   exists k, o = Reject k /\ (k = 0 \/ In (clause_of k) (violated i))).
 Proof. exact holds_outcome_sound_l. Qed.
 Print Assumptions C20_holds_outcome_sound.
 
@@ -96,3 +96,10 @@ Theorem C20_cli_region_sets_chroms :
   exists c s e, a_region a = Some (c, s, e) /\ a_chroms a = [c].
 Proof. exact cli_region_sets_chroms_l. Qed.
 Print Assumptions C20_cli_region_sets_chroms.
+
+(* With start <= end the region loop keeps at least one marker of every non-empty map
+   (sorted or not): on the repaired tree the IndexError of the pinned tree is unreachable. *)
+Theorem C20_region_cut_nonempty :
+  forall ms s e, ms <> [] -> s <= e -> region_cut ms s e <> [].
+Proof. exact region_cut_nonempty_l. Qed.
+Print Assumptions C20_region_cut_nonempty.
